@@ -20,8 +20,9 @@ import (
 // yield point reached, DoneUntil, LastIndex, base and slots of the current window.
 
 type wmOp struct {
-	K string `json:"k"` // "b" | "d" | "w"
-	I uint64 `json:"i"`
+	K string   `json:"k"` // "b" | "d" | "w" | "B" (BeginMany) | "D" (DoneMany)
+	I uint64   `json:"i,omitempty"`
+	L []uint64 `json:"l,omitempty"` // indices of a batch (non-zero)
 }
 
 type wmDesc struct {
@@ -31,29 +32,29 @@ type wmDesc struct {
 }
 
 var wmTags = map[string]int{
-	"harness.wm.op":                              0,
-	"utils.WaterMark.setLastIndex.load":          1,
-	"utils.WaterMark.setLastIndex.cas":           2,
-	"utils.WaterMark.ensureWindow.load":          3,
-	"utils.WaterMark.ensureWindow.lock":          4,
-	"utils.WaterMark.ensureWindow.reload":        5,
-	"utils.WaterMark.ensureWindow.unlock":        6,
-	"utils.WaterMark.rebuildWindowLocked.done":   7,
-	"utils.WaterMark.rebuildWindowLocked.copy":   8,
-	"utils.WaterMark.rebuildWindowLocked.store":  9,
-	"utils.WaterMark.ensureWindow.final":         10,
-	"utils.WaterMark.addIndex.add":               11,
-	"utils.WaterMark.tryAdvance.done":            12,
-	"utils.WaterMark.tryAdvance.last":            13,
-	"utils.WaterMark.tryAdvance.window":          14,
-	"utils.WaterMark.tryAdvance.slot":            15,
-	"utils.WaterMark.tryAdvance.cas":             16,
-	"utils.WaterMark.notifyWaiters.lock":         17,
-	"utils.WaterMark.notifyWaiters.close":        18,
-	"utils.WaterMark.WaitForMark.fast":           19,
-	"utils.WaterMark.WaitForMark.lock":           20,
-	"utils.WaterMark.WaitForMark.check":          21,
-	"utils.WaterMark.WaitForMark.select":         22,
+	"harness.wm.op":                             0,
+	"utils.WaterMark.setLastIndex.load":         1,
+	"utils.WaterMark.setLastIndex.cas":          2,
+	"utils.WaterMark.ensureWindow.load":         3,
+	"utils.WaterMark.ensureWindow.lock":         4,
+	"utils.WaterMark.ensureWindow.reload":       5,
+	"utils.WaterMark.ensureWindow.unlock":       6,
+	"utils.WaterMark.rebuildWindowLocked.done":  7,
+	"utils.WaterMark.rebuildWindowLocked.copy":  8,
+	"utils.WaterMark.rebuildWindowLocked.store": 9,
+	"utils.WaterMark.ensureWindow.final":        10,
+	"utils.WaterMark.addIndex.add":              11,
+	"utils.WaterMark.tryAdvance.done":           12,
+	"utils.WaterMark.tryAdvance.last":           13,
+	"utils.WaterMark.tryAdvance.window":         14,
+	"utils.WaterMark.tryAdvance.slot":           15,
+	"utils.WaterMark.tryAdvance.cas":            16,
+	"utils.WaterMark.notifyWaiters.lock":        17,
+	"utils.WaterMark.notifyWaiters.close":       18,
+	"utils.WaterMark.WaitForMark.fast":          19,
+	"utils.WaterMark.WaitForMark.lock":          20,
+	"utils.WaterMark.WaitForMark.check":         21,
+	"utils.WaterMark.WaitForMark.select":        22,
 }
 
 func wmTag(st sched.Step) int {
@@ -95,6 +96,10 @@ func wmCase(d wmDesc) (corr.Case, error) {
 					w.Done(o.I)
 				case "w":
 					_ = w.WaitForMark(context.Background(), o.I)
+				case "B":
+					w.BeginMany(o.L)
+				case "D":
+					w.DoneMany(o.L)
 				}
 			}
 		})
@@ -139,6 +144,10 @@ func wmCase(d wmDesc) (corr.Case, error) {
 				os = append(os, fmt.Sprintf("Begin %d", o.I))
 			case "d":
 				os = append(os, fmt.Sprintf("Done %d", o.I))
+			case "B":
+				os = append(os, "BeginMany "+corr.ListN(o.L))
+			case "D":
+				os = append(os, "DoneMany "+corr.ListN(o.L))
 			default:
 				os = append(os, fmt.Sprintf("Wait %d", o.I))
 			}
@@ -151,9 +160,12 @@ func wmCase(d wmDesc) (corr.Case, error) {
 
 func bd(i uint64) []wmOp { return []wmOp{{K: "b", I: i}, {K: "d", I: i}} }
 
+// bdMany: BeginMany l; DoneMany l
+func bdMany(l ...uint64) []wmOp { return []wmOp{{K: "B", L: l}, {K: "D", L: l}} }
+
 func runWatermark(c *corr.Ctx) error {
 	c.Meta("run_module", "RunWatermark")
-	c.Meta("rule", "2..3 threads running Begin/Done/WaitForMark lists on a real WaterMark with a window of 2..4 slots under the controlled scheduler; indices from {1,2,3} and {1, base+size} (forces rebuilds); schedules: every word of length b over 2 threads (b=9 quick, 11 thorough) for fixed programs, random block schedules for random programs; each completed round-robin. Compared after every grant: ran, yield point, DoneUntil, LastIndex, base and slot counts of the current window. non-trivial = the mark advanced and the run had a rebuild, a blocked wait, or several threads")
+	c.Meta("rule", "2..3 threads running Begin/Done/WaitForMark/BeginMany/DoneMany lists (batches inside the window, spanning one and two window sizes, alone and next to other threads) on a real WaterMark with a window of 2..4 slots under the controlled scheduler; indices from {1,2,3} and {1, base+size} (forces rebuilds); schedules: every word of length b over 2 threads (b=9 quick, 11 thorough) for fixed programs, random block schedules for random programs; each completed round-robin. Compared after every grant: ran, yield point, DoneUntil, LastIndex, base and slot counts of the current window. non-trivial = the mark advanced and the run had a rebuild, a blocked wait, or several threads")
 	c.Meta("exhaustive", true)
 	c.Meta("exhaustive_scope", "2 threads, programs (Begin 1; Done 1 | Begin 2; Done 2), (Begin 1; Done 1 | Wait 1), (Begin 2; Done 2 | Begin 6; Done 6 with 4 slots): all schedule prefixes up to the bound")
 	emit := func(d wmDesc) error {
@@ -194,6 +206,33 @@ func runWatermark(c *corr.Ctx) error {
 		{Size: 4, Progs: [][]wmOp{bd(1), {{K: "w", I: 1}}}},
 		{Size: 4, Progs: [][]wmOp{bd(2), bd(6)}},
 	}
+	// batches that stay inside the window, span one window size and span two window sizes,
+	// alone and next to Begin/Done/WaitForMark of another thread
+	batchProgs := []wmDesc{
+		{Size: 4, Progs: [][]wmOp{bdMany(1, 2, 3)}},
+		{Size: 4, Progs: [][]wmOp{bdMany(1, 5)}},
+		{Size: 4, Progs: [][]wmOp{bdMany(2, 6, 10)}},
+		{Size: 2, Progs: [][]wmOp{{{K: "B", L: []uint64{1, 3, 5}}, {K: "d", I: 1}, {K: "D", L: []uint64{3, 5}}}}},
+		{Size: 4, Progs: [][]wmOp{bdMany(1, 5), {{K: "w", I: 1}}}},
+		{Size: 4, Progs: [][]wmOp{bdMany(1, 5), {{K: "w", I: 5}}}},
+		{Size: 4, Progs: [][]wmOp{bdMany(2, 6), bd(1)}},
+		{Size: 2, Progs: [][]wmOp{bdMany(1, 3, 5), bd(2)}},
+		{Size: 3, Progs: [][]wmOp{bdMany(1, 2), bdMany(4, 7)}},
+	}
+	for _, bp := range batchProgs {
+		for i := 0; i < c.Scale(12, 200); i++ {
+			d := bp
+			if i > 0 && len(d.Progs) > 1 {
+				d.Schedule = sched.RandomBlocks(c.Rng, len(d.Progs), 10+c.Rng.Intn(60), 12)
+			} else if i > 0 {
+				break
+			}
+			c.Count("batch")
+			if err := emit(d); err != nil {
+				return err
+			}
+		}
+	}
 	for _, fp := range fixedProgs {
 		fp := fp
 		sched.Prefixes(2, bound, func(w []int) bool {
@@ -218,6 +257,13 @@ func runWatermark(c *corr.Ctx) error {
 				switch c.Rng.Intn(4) {
 				case 0:
 					prog = append(prog, wmOp{K: "w", I: corr.Pick(c.Rng, idxs[:3])})
+				case 1:
+					a, b := corr.Pick(c.Rng, idxs[:3]), corr.Pick(c.Rng, idxs[3:])
+					if c.Rng.Intn(2) == 0 {
+						prog = append(prog, bdMany(a, b)...)
+					} else {
+						prog = append(prog, bdMany(a, b, b+uint64(size))...)
+					}
 				default:
 					prog = append(prog, bd(corr.Pick(c.Rng, idxs))...)
 				}
